@@ -42,7 +42,6 @@ def run(chk):
     _c05t.error_ctors(chk, w)
     from . import ctors as _ctors
     _ctors.accessors(chk, w, only=["vaporetto::utils"])
-    _ctors.run(chk, w, only=['Model::new', 'DictModel::new'])
     chk.rule("R07.7", "buffering adaptors around the caller's sink are flushed with the error propagated")
     for rid, txt in (("R07.1", "magic written first / compared whole before decoding"), ("R07.2", "one bincode configuration"),
                      ("R07.3", "derived Encode/Decode symmetry"), ("R07.4", "error discipline in model IO"),
@@ -146,7 +145,8 @@ def run(chk):
             slice_rules(chk, w, b, it, outs, mg, mlen)
         # no Err path may have decoded successfully and then be Ok... (covered by E7 below)
 
-    r072(chk, w)
+    with chk.only(keys=lambda k: not k.startswith("R07.2:") or "predictor::" not in k and "scorer" not in k):   # the predictor codec is C14's business
+        r072(chk, w)
     r073(chk, w)
     r074(chk, w)
 
@@ -271,7 +271,7 @@ def r072(chk, w):
             if c.startswith("bincode::config::") and "::with_" in c or (c.startswith("bincode::config::") and c.endswith("legacy")):
                 mods.append((bd, bb, c))
     for bd, bb, c in mods:
-        chk.ob("R07.2", "modifier:%s:%s" % (bd.fn.split("::")[-1], c.split("::")[-1]), False, "%s changes the bincode configuration with %s: writer and reader configurations can diverge" % (bd.fn, c), site=C.site(bd, bb))
+        chk.ob("R07.2", "modifier:%s:%s" % (bd.fn.replace("vaporetto::", ""), c.split("::")[-1]), False, "%s changes the bincode configuration with %s: writer and reader configurations can diverge" % (bd.fn, c), site=C.site(bd, bb))
     for bd in w.all_bodies("vaporetto"):
         if bd.promoted is not None:
             continue
